@@ -38,6 +38,9 @@ type DB struct {
 	Log      []string
 	KeepLog  bool
 	Disarmed bool
+	Closes   int
+	// YieldRead, if set, is called before every read of the underlying store (C17).
+	YieldRead func(kind string)
 }
 
 // Wrap returns a seam around u.
@@ -66,7 +69,12 @@ func (d *DB) gate(kind string) error {
 	return nil
 }
 
-func (d *DB) Close() error { return d.U.Close() }
+func (d *DB) Close() error {
+	d.mu.Lock()
+	d.Closes++
+	d.mu.Unlock()
+	return d.U.Close()
+}
 
 func (d *DB) BeginTx() (mwdb.DBTransaction, error) {
 	if err := d.gate("BeginTx"); err != nil {
